@@ -294,9 +294,9 @@ segments clustered at offsets 0, 2^16, 2^32, 2^63, 2^64-1. Non-trivial = the seq
     ctx.run_known_replays(&part);
     let (m, l) = ctx.tier.pick((10u64, 3u32), (12u64, 3u32));
     exhaustive(ctx, &part, m, l);
-    if ctx.tier == Tier::Thorough {
-        exhaustive(ctx, &part, 7, 4);
-    }
+    // four segments are needed for a new segment to bridge several stored ones from inside a gap
+    let m4 = ctx.tier.pick(6u64, 8u64);
+    exhaustive(ctx, &part, m4, 4);
     ctx.section = "random-long".into();
     let n = ctx.tier.pick(8_000u64, 100_000);
     ctx.drive_proptest(&part, long_strategy(ctx.tier.pick(80, 200)), n, 4000);
